@@ -5,6 +5,7 @@ import copy
 import itertools
 import re
 import sys
+import time
 from urllib.parse import urlparse as real_urlparse
 
 from . import common
@@ -655,7 +656,7 @@ def nontrivial(case, res):
 
 def canon(case):
     return [case["kind"], case.get("key"), [(i, t - BASE, d, items) for i, t, d, items in case["events"]],
-            [(c, rd) for c, rd, _ in case.get("classes", [])]]
+            [(c, rd) for c, rd, _ in case.get("classes", [])]] + ([case["route"], case.get("program")] if "route" in case else [])
 
 
 def main(argv=None):
@@ -678,16 +679,18 @@ def main(argv=None):
     cases += grid
     cases += list(gen_random(ck.rng, n_rand))
 
-    wires, tabs, impls = [], [], []
-    for case in cases:
+    wires, tabs, impls, done = [], [], [], []
+
+    def process(case, res, objs_after, on_bad=None):
+        """one call of the implementation (already made: res) through the property oracle; queued for the model"""
         kind = case["kind"]
-        res, objs_after = run_impl(case, Event, cl, split_url_events, simplify_string)
+        done.append(case)
         impls.append(res)
         tab = Tab()
         wires.append(sx(wire_case(case, tab)))
         tabs.append(tab)
         ck.count(kind)
-        ck.count(f"{kind}:events={len(case['events'])}")
+        ck.count(f"{kind}:events={len(case['events'])}" if len(case["events"]) < 100 else f"{kind}:events>=100")
         if "classes" in case and kind in ("categorize", "tag"):
             ck.count(f"{kind}:rules={len(case['classes'])}")
         try:
@@ -696,7 +699,7 @@ def main(argv=None):
             nt = False
         ck.count(f"{kind}:{'nontrivial' if nt else 'default'}")
         ck.note_case(canon(case), nontrivial=nt)
-        if nt and kind in ("categorize", "tag", "split", "simplify") and len(case["events"]) >= 1 \
+        if nt and kind in ("categorize", "tag", "split", "simplify") and 1 <= len(case["events"]) < 50 \
                 and sum(1 for s in ck.samples if s["kind"] == kind) < 1:
             ck.sample({"kind": kind, "key": case.get("key"), "events": canon(case)[2],
                        "classes": canon(case)[3], "impl": res}, limit=8)
@@ -704,16 +707,33 @@ def main(argv=None):
             bad = oracle(case, res, ck)
         except Exception as ex:  # noqa: BLE001 - an output the oracle cannot even read is a failing input
             bad = f"malformed: the oracle could not read the output ({type(ex).__name__}: {ex})"
-        if bad:
+        if bad and on_bad is not None:
+            on_bad(bad)
+        elif bad:
             ck.failing_input("C19:" + bad.split(":")[0], bad,
                              {"case": canon(case), "base_us": BASE, "impl_output": res})
-        if kind == "simplify":
+        if kind == "simplify" and objs_after is not None:
             # simplify_string deep-copies: the caller's events are untouched (the model is
             # functional; this is the part of the tie the model cannot express)
             after = [view(e) for e in objs_after]
             if not same(list(map(_norm, after)), list(map(_norm, case["events"]))):
                 ck.disagreement("simplify-input", "simplify_string modified its input events",
                                 {"case": canon(case), "input_after": after})
+
+    for case in cases:
+        res, objs_after = run_impl(case, Event, cl, split_url_events, simplify_string)
+        process(case, res, objs_after)
+    # round 3: call sequences in one process, the registered query functions and whole query2 programs, results edited
+    # in place by their consumer, >= 10 001 events (harness/c19_hist.py); every call judged alone by `process`
+    from . import c19_hist
+    t_h = time.time()
+    runner = c19_hist.Runner(ck, sys.modules[__name__], process)
+    n_sessions = 0
+    for steps in c19_hist.sessions(sys.modules[__name__], ck.rng, ck.tier):
+        runner.run_session(steps)
+        n_sessions += 1
+    ck.coverage["history"] = {"sessions": n_sessions, "calls": len(runner.history), "seconds": round(time.time() - t_h, 1)}
+    cases = done
     if have_driver:
         model = common.run_driver("C19", wires)
         for case, w, mo, io, tab in zip(cases, wires, model, impls, tabs):
